@@ -77,6 +77,8 @@ func (t Tx[T]) Send(v T)                      { t.ch <- v }
 func Send[T any](ch chan<- T, v T)            { ch <- v }
 func Close[T any](ch chan<- T)                { close(ch) }
 func CloseRW[T any](ch chan T)                { close(ch) }
+func Len[C any](ch C) int                     { return reflect.ValueOf(ch).Len() }
+func Cap[C any](ch C) int                     { return reflect.ValueOf(ch).Cap() }
 func Go(name string, fn func())               { go fn() }
 func GoRole(role, name string, fn func())     { go fn() }
 func SetRole(role string) string              { return "" }
